@@ -304,7 +304,7 @@ def g_def(rng, dist):
         if pt != "__root__" and rng.random() < 0.12:
             # a CYCLE in the relation graph (folder -> folder): the recursion ends because the count is 0 with high probability
             # (probability < 1 and none_value 0, at most one child)
-            back = rng.choice(names[: lvl + 1])
+            back = pt      # a self-loop only: a cycle through other types multiplies by their counts and need not die out
             s = [["src", {"c": {"s": "cycle {hier_idx}"}}]]
             if back in absent:
                 s.append(["ty", {"c": {"s": back}}])
